@@ -382,18 +382,17 @@ func runC08_3(c *Ctx) {
 		}
 	})
 	retTrueOnEq := false
-	for _, b := range cs.Blocks {
-		ifi, isIf := b.Instrs[len(b.Instrs)-1].(*ssa.If)
-		if !isIf {
+	seenIf := map[*ssa.If]bool{}
+	for _, ee := range EqEdges(cs) {
+		if seenIf[ee.If] {
 			continue
 		}
-		if bo, isB := ifi.Cond.(*ssa.BinOp); isB && bo.Op == token.EQL {
-			// true edge returns true
-			for _, in := range b.Succs[0].Instrs {
-				if r, isR := in.(*ssa.Return); isR {
-					if cst, isC := r.Results[0].(*ssa.Const); isC && cst.Value != nil && cst.Value.String() == "true" {
-						retTrueOnEq = true
-					}
+		seenIf[ee.If] = true
+		// the equal edge returns true
+		for _, in := range ee.Eq.Instrs {
+			if r, isR := in.(*ssa.Return); isR {
+				if cst, isC := r.Results[0].(*ssa.Const); isC && cst.Value != nil && cst.Value.String() == "true" {
+					retTrueOnEq = true
 				}
 			}
 		}
